@@ -116,6 +116,19 @@ CHECKS = {
             {"name": "c06-auth", "bin": "cmdglyph", "build": "inpkg:cmd/glyph", "run": "^TestC06Auth$", "quick": 20000, "thorough": 1000000},
         ],
     },
+    "C07": {
+        "level": "exploration",
+        "manifest": {
+            "technique": "model-based property-based testing (rapid): generated type definitions, JSON documents derived from them and mutated by one labelled edit, typed query strings and return values, checked against a reference conformance relation with a three-valued verdict, through the real handlers in both execution modes",
+            "level_text": "Type definitions (int, float, str, bool, any, timestamp, [T], List[T], Set[T], Map[str,T], nested named types, T?, A | B, required !, literal defaults) are generated with a route declaring the last one as input type, another declaring it as return type, and a route with typed query parameters. Conforming documents are generated from the type and mutated (drop / null a field, swap its JSON kind, fraction for int, violation inside a list element or nested object, unknown field) or replaced by non-documents (empty, malformed, array, scalar, wrong content type). must-reject => 4xx and the body did not run (5xx for a returned value); must-accept => 200, body ran, echoed input equals the document plus defaults exactly at absent fields; unspecified => no 5xx; both modes must agree on the status class.",
+            "level_note": "Trusts the reference conformance relation in inpkg/cmdglyph/c07_test.go. Unknown extra fields, int given for float and explicit null for a `!` field that has a default are treated as unspecified. Only literal defaults are generated (compiled mode cannot evaluate others).",
+        },
+        "rule": ("rapid-generated (1-3 type definitions of 1-5 fields, nesting <=2, 0-3 typed query parameters, 2-6 requests); non-trivial = a must-reject request, or a must-accept request for which a default was applied; distinct = hash of the whole case"),
+        "assumptions": ["body execution is observed through the marker {ran: true, echo: input}", "documents are sent as application/json unless the edit says otherwise"],
+        "units": [
+            {"name": "c07-contract", "bin": "cmdglyph", "build": "inpkg:cmd/glyph", "run": "^TestC07Contract$", "quick": 20000, "thorough": 800000},
+        ],
+    },
     "C20": {
         "level": "exploration",
         "manifest": {
